@@ -24,6 +24,7 @@ fn handle(line: &str, out: &mut Vec<String>) {
         "parse" => pipeline::op_parse(&parts, out),
         "pipe" => pipeline::op_pipe(&parts, out),
         "yaml" => pipeline::op_yaml(&parts, out),
+        "lsp" => pipeline::op_lsp(&parts, out),
         _ => out.push("BADOP".to_string()),
     }
 }
